@@ -61,6 +61,9 @@ class PteraNameError(NameError):
     def __init__(self, varname, function):
         self.varname = varname
         self.function = function
+        # Recorded now: the function loses its instrumentation, and this
+        # table with it, when the probes that are active now end
+        self._info = function.__ptera_info__[varname]
         prov = self.info().get("provenance", None)
         if prov == "external":
             msg = (
@@ -78,7 +81,7 @@ class PteraNameError(NameError):
 
     def info(self):
         """Return information about the missing variable."""
-        return self.function.__ptera_info__[self.varname]
+        return self._info
 
 
 def name_error(varname, function, pop_frames=1):
